@@ -17,7 +17,7 @@ from .. import changepoints_corr as cc, common
 from ..common import Result, Violation, f2h
 
 META = dict(
-    level='Lean theorems: _fixed_changepoints model returns boundaries that start at 0, end at n, are non-decreasing, and interior boundary k is exactly the last index with cumulative fraction <= k/epochs (all non-negative count vectors with positive total, all epochs, exact arithmetic); the un-pruned optimal-partitioning recursion returns a minimum-cost segmentation for EVERY loss function, penalty and length (strong induction); PELT pruning is sound when the loss is superadditive; finding F6 proved on the model: with minimum count/offset constraints pruning discards infeasible candidates for good and the result is not optimal (counts [5,5,4,2], offsets [4,1,3,2], min_counts 3, min_offset 4). Models tied to the numba code exhaustively over all vectors up to the stated length over counts {0..5} x offsets {1..4} x penalties x minima x epochs, and on random longer vectors. Clause 2 of the property is FALSE of the code (known findings); clause 1 deviates on exact ties through linspace rounding (known finding).',
+    level='Lean theorems: _fixed_changepoints model returns boundaries that start at 0, end at n, are non-decreasing, and interior boundary k is exactly the last index with cumulative fraction <= k/epochs (all non-negative count vectors with positive total, all epochs, exact arithmetic); the un-pruned optimal-partitioning recursion returns a minimum-cost segmentation for EVERY loss function, penalty and length (strong induction); PELT pruning is sound when the loss is superadditive; finding F6 proved on the model: with minimum count/offset constraints pruning discards infeasible candidates for good and the result is not optimal (counts [5,5,4,2], offsets [4,1,3,2], min_counts 3, min_offset 4). Models tied to the numba code exhaustively over all vectors up to the stated length over counts {0..5} x offsets {1..4} x penalties x minima x epochs, and on random longer vectors. Clause 2 of the property is FALSE of the code with minimum constraints or zero counts (known findings F6) and proved of the model without them (pelt_optimal_unconstrained, also for Real.log); clause 1 holds: the exact-tie defect F13 found here was repaired in /repo 412a87a and fixed_cp_spec is stated for the cross-multiplied comparison the code now performs.',
     note='Lean kernel + {propext, Classical.choice, Quot.sound}; exhaustive small-domain + sampled correspondence at Float (libm log shared); numpy searchsorted/cumsum, numba linspace and typed-dict iteration order by contract',
     technique='strong induction on the DP recursion over an ordered monoid with top; counting lemma for searchsorted; decide on a concrete witness; exhaustive model/implementation enumeration',
     ref='§3 C26',
